@@ -19,9 +19,15 @@ def find_block(E, qual, start_anchor, end_anchor, occurrence=0):
     fn = E.funcs[qual]
     found = []
 
+    after = start_anchor.startswith("after:")
+    if after:
+        # the block starts at the statement FOLLOWING the one that matches (robust against edits of the block's own first line)
+        start_anchor = start_anchor[len("after:"):]
+
     def visit(stmts):
-        for i, s in enumerate(stmts):
-            if _text(E, module, s).startswith(start_anchor):
+        for i0, s in enumerate(stmts):
+            i = i0 + 1 if after else i0
+            if _text(E, module, s).startswith(start_anchor) and i < len(stmts):
                 if isinstance(end_anchor, int):
                     # a fixed number of statements from the anchor on (whatever the later ones look like)
                     if i + end_anchor <= len(stmts):
